@@ -59,6 +59,8 @@ pub struct Cx<'k> {
     pub tier: Tier,
     /// print notes as they are made (diagnosing crashes in replay mode: VMV_TRACE=1)
     pub trace: bool,
+    /// a failure found inside a helper that cannot return it itself
+    pub pending_failure: Option<String>,
 }
 
 impl<'k> Cx<'k> {
@@ -73,6 +75,7 @@ impl<'k> Cx<'k> {
             known,
             tier,
             trace: verbose && std::env::var_os("VMV_TRACE").is_some(),
+            pending_failure: None,
         }
     }
     #[inline]
